@@ -111,6 +111,19 @@ def same(x, y):
         return False
 
 
+def canon(x):
+    """address-free text of a value (containers hold Obj instances)"""
+    if isinstance(x, Obj):
+        return "Obj" + canon(vars(x))
+    if isinstance(x, dict):
+        return "{" + ", ".join(f"{k!r}: {canon(v)}" for k, v in x.items()) + "}"
+    if isinstance(x, list):
+        return "[" + ", ".join(canon(v) for v in x) + "]"
+    if isinstance(x, tuple):
+        return "(" + ", ".join(canon(v) for v in x) + ")"
+    return f"{type(x).__name__}:{x!r}"
+
+
 class Outcome:
     """a value or an exception class name"""
     __slots__ = ("val", "exc")
@@ -119,7 +132,7 @@ class Outcome:
         self.val, self.exc = val, exc
 
     def __repr__(self):
-        return f"raise {self.exc}" if self.exc else f"{type(self.val).__name__}:{self.val!r}"
+        return f"raise {self.exc}" if self.exc else canon(self.val)
 
 
 def outcome(f):
